@@ -332,7 +332,8 @@ package mail
 //@ func mail.Msg.SetGenHeader (header, values)
 //@   requires[C02:inv] m != nil && ghsafe(m)
 //@   ensures[C02:inv] ghsafe(m)
-//@   loop 1 invariant[C02:encoded] 0 <= rangeindex + 1 && (forall j :: 0 <= j && j <= rangeindex && j < len(values) ==> nocrlf(values[j])) && ghsafe(m) && m.genHeader != nil
+//@   ensures[C02:own-copy] freshslice(m.genHeader[header])
+//@   loop 1 invariant[C02:encoded] 0 <= rangeindex + 1 && len(encoded) == len(values) && freshslice(encoded) && (forall j :: 0 <= j && j <= rangeindex && j < len(encoded) ==> nocrlf(encoded[j])) && ghsafe(m) && m.genHeader != nil
 //@ func mail.msgWriter.writeHeader (key, values)
 //@   requires[C02:hsafe] valsafe(values)
 //@ func mail.msgWriter.newPart (header)
@@ -1274,3 +1275,9 @@ package mail
 // C11: WriteToFile agrees with the other output paths only when the file holds the rendering and nothing else: the
 // target is created empty or truncated (os.Create; an os.OpenFile without O_TRUNC keeps the tail of a longer file).
 //@ at mail.Msg.WriteToFile mail.Msg.WriteTo#* before assert[C11:file-holds-the-rendering-only] arg1.truncated
+// C02: every setter of a generic header goes through SetGenHeader's encoder (or stores values that cannot carry a
+// line break); a value written into genHeader directly would be emitted as it is. SetGenHeader stores a copy: the
+// caller's slice stays the caller's (what is written into it later must not reach the header block unencoded).
+//@ func mail.Msg.SetMessageIDWithValue (messageID)
+//@   requires[C02:inv] m != nil && ghsafe(m)
+//@   ensures[C02:inv] ghsafe(m)
